@@ -123,13 +123,99 @@ def unit_level(ctx):
                         exp = 'err:' + type(e).__name__
                     lines.append('addperiod\t%s\t%s\t%s' % (cps(mod), '?' if a is None else cps(a), '?' if b is None else cps(b)))
                     expect.append(exp)
+    n_before = len(lines)
+    _assemble_cases(ctx, parser, r, lines, expect)
+    ctx.count('unit: set_parse_result (every slot kind x modifier x flags) vs RTV.WF.resolveSlot', len(lines) - n_before)
     model = common.driver(lines)
-    ctx.count('unit: format/determine/resolution', len(lines))
+    ctx.count('unit: format/determine/resolution', n_before)
     for l, a, b in zip(lines, expect, model):
         if a != b:
             ctx.report('correspondence', l.split('\t')[0], '%r: implementation %r, model %r' % (_show(l), _show(a), _show(b)),
                 failing_input={'op': l, 'implementation': a, 'model': b}, property_fails=False)
 
+
+
+_SINGLE_KEY = {'date': 'date', 'time': 'time', 'datetime': 'dateTime'}
+_PERIOD_KEYS = {'daterange': ('startDate', 'endDate'), 'timerange': ('startTime', 'endTime'),
+                'datetimerange': ('startDateTime', 'endDateTime')}
+_MODS = ['', 'before', 'after', 'since', 'until', 'approx', 'before-end', 'after-start', 'before-approx', 'start', 'end',
+         'since-approx', 'less', 'more', 'befor', 'untilx', 'after-end', 'before-start']
+
+
+def _assemble_cases(ctx, parser, r, lines, expect):
+    """`BaseMergedParser.set_parse_result` (→ `_date_time_resolution`, `_generate_from_resolution`, the two `__add_*` helpers,
+    `_determine_date_time_types` twice) on constructed slots of EVERY kind, every modifier string and flag, against
+    `RTV.WF.resolveSlot` / `slotTypeName` — the functions `type_name_agrees`, `definite_timex_value_date`,
+    `period_invalid_end_filtered` and the `before` / `after` / `since` sentinel witnesses of RTV.Props.C11 are about."""
+    from recognizers_date_time.date_time.utilities import DateTimeResolutionResult
+    from recognizers_date_time.date_time.parsers import DateTimeParseResult
+
+    def fld(x):
+        return '?' if x is None else cps(x)
+
+    def call(t, timex, mod, flags, past, future):
+        """past / future: (single, start, end, duration), None = key missing"""
+        slot = DateTimeParseResult()
+        slot.type = t
+        slot.timex_str = timex
+        v = DateTimeResolutionResult()
+        v.timex = timex
+        v.mod = mod
+        dicts = []
+        for (single, a, b, dur) in (past, future):
+            d = {}
+            if single is not None and t in _SINGLE_KEY:
+                d[_SINGLE_KEY[t]] = single
+            if t in _PERIOD_KEYS:
+                if a is not None:
+                    d[_PERIOD_KEYS[t][0]] = a
+                if b is not None:
+                    d[_PERIOD_KEYS[t][1]] = b
+            if dur is not None:
+                d['duration'] = dur
+            dicts.append(d)
+        v.past_resolution, v.future_resolution = dicts
+        slot.value = v
+        try:
+            out = parser.set_parse_result(slot, *flags)
+            f = lambda d, k: ('absent' if k not in d else ('null' if d[k] is None else cps(d[k])))
+            vals = ['~'.join([cps(d.get('type', '')), cps(d.get('timex', '') or ''), f(d, 'value'), f(d, 'start'), f(d, 'end')])
+                    for d in out.value['values']]
+            exp = cps(out.type) + '\t' + ';'.join(vals)
+        except Exception as e:
+            exp = 'err:' + type(e).__name__
+        lines.append('assemble\t%s\t%s\t%s\t%d\t%s\t%s' % (cps(t), cps(timex), cps(mod), 1 if any(flags) else 0,
+                                                         '\t'.join(fld(x) for x in past), '\t'.join(fld(x) for x in future)))
+        expect.append(exp)
+
+    flagsets = [(False, False, False), (True, False, False), (False, True, False), (False, False, True)]
+    singles = [None, '', '0001-01-01', '0001-01-01 00:00:00', '2019-05-05', '2019-05-06', '10:00:00', '2019-05-05 10:00:00']
+    ends = [None, '', '0001-01-01', '0001-01-01 00:00:00', '2019-05-05', '2019-05-09', '10:00:00']
+    k = 0
+    for t in ('date', 'time', 'datetime'):
+        for mod in _MODS:
+            for p in singles:
+                for f in singles:
+                    k += 1
+                    if not ctx.thorough and p is not None and f is not None and r.random() < 0.5:
+                        continue
+                    call(t, '2019-05-05' if k % 3 else '', mod, flagsets[k % 4], (p, None, None, None), (f, None, None, None))
+    for t in ('daterange', 'timerange', 'datetimerange'):
+        for mod in _MODS:
+            for a in ends:
+                for b in ends:
+                    k += 1
+                    # future: the same pair, the swapped pair (same sorted values, other dict), another pair
+                    for fut in ((a, b), (b, a), (a, '2019-05-10')):
+                        if not ctx.thorough and fut != (a, b) and r.random() < 0.6:
+                            continue
+                        call(t, '(2019-05-05,2019-05-09,P4D)', mod, flagsets[(k + len(mod)) % 4], (None, a, b, None), (None, fut[0], fut[1], None))
+    for t in ('duration', 'set', 'datetimepoint', ''):
+        for mod in ('', 'less', 'more', 'before'):
+            for p in (None, '3600', '', '-259200'):
+                for f in (None, '3600', '7200'):
+                    k += 1
+                    call(t, 'PT1H', mod, flagsets[k % 4], (None, None, None, p), (None, None, None, f))
 
 
 class _FakeMatch:
